@@ -415,6 +415,19 @@ func dryRunCalls(e *env, bi *builtImage, rev, image string) int {
 	return calls
 }
 
+// nearChunk sets the padding so that the stream is roughly 4.3-8 KB long.
+func nearChunk(r *rand.Rand, c *content) {
+	target := 4300 + r.IntN(3700)
+	n := len(c.Objs)
+	per := (target - 700*n - 400) / n
+	if per < 0 {
+		per = 0
+	}
+	for i := range c.Objs {
+		c.Objs[i].Pad = per/2 + r.IntN(per/2+1)
+	}
+}
+
 func (rn *run) runFault(i int, name string) {
 	c := rn.c
 	r := c.Rng("fault", i)
@@ -424,6 +437,10 @@ func (rn *run) runFault(i int, name string) {
 	f.Sticky = r.IntN(10) < 3
 	padMax := []int{200, 3000, 20000}[r.IntN(3)]
 	f.Content = genValidContent(r, rn.g, f.Typ, 2+r.IntN(5), padMax)
+	if r.IntN(10) < 3 {
+		// streams of one to two read-buffer lengths (the parser reads through a 4 KiB buffer)
+		nearChunk(r, f.Content)
+	}
 	if err := f.Content.materialise(r); err != nil {
 		c.Violate("harness:generator", name, err.Error(), f)
 		return
@@ -481,15 +498,14 @@ func (rn *run) runFault(i int, name string) {
 		}
 		st := cacheState(e, rev, f.Content.stream)
 		c.Count("cache_state_"+st, 1)
-		sit := "after-" + f.Kind
-		if armed {
-			sit = "during-" + f.Kind
-		}
 		sr := e.reconcile(rev, image)
 		sr.TaintHit = e.ffs.takeServed()
 		fsFired := e.ffs.takeFired()
 		_, srcFired := bi.flaky.reset()
+		// "during" = the fault fired inside this reconcile, "after" = any later reconcile
+		sit := "after-" + f.Kind
 		if len(fsFired) > 0 || srcFired > 0 {
+			sit = "during-" + f.Kind
 			fired = true
 			for _, m := range fsFired {
 				c.Count("fsfault_fired_"+m+"_"+f.PosCls, 1)
@@ -541,6 +557,9 @@ func (rn *run) runShare(i int, name string) {
 	for k := 0; k < 2; k++ {
 		s.Layouts[k] = pick(r, validLayouts)
 		s.Content[k] = genValidContent(r, rn.g, s.Typ, 2+r.IntN(5), []int{100, 3000, 12000}[r.IntN(3)])
+		if r.IntN(4) == 0 {
+			nearChunk(r, s.Content[k])
+		}
 		if err := s.Content[k].materialise(r); err != nil {
 			c.Violate("harness:generator", name, err.Error(), s)
 			return
@@ -596,7 +615,12 @@ func (rn *run) runShare(i int, name string) {
 		}
 		for k := 0; k < 2; k++ {
 			ff := round == 3 && s.Fault == ""
-			rn.check(name, stepCtx{Family: "share", Situation: "shared-cache", Typ: s.Typ, Layout: layoutClass(s.Layouts[k]), FaultFree: ff}, srs[k], s.Content[k].declared, nil, false, wit)
+			sit := "shared-cache"
+			if k == 0 && len(fsFired) > 0 {
+				// same situation (and key) as the single-revision fault family
+				sit = map[string]string{"create": "during-fs-create", "write": "during-fs-write", "close": "during-fs-close-keep"}[s.Fault]
+			}
+			rn.check(name, stepCtx{Family: "share", Situation: sit, Typ: s.Typ, Layout: layoutClass(s.Layouts[k]), FaultFree: ff}, srs[k], s.Content[k].declared, nil, false, wit)
 		}
 		if len(taint) > 0 {
 			c.Violate("O1-partial-entry-served:shared-cache", name, fmt.Sprintf("an incomplete cache entry was opened for reading: %v", taint), wit())
